@@ -37,6 +37,11 @@ FRESH_METHODS = {'copy', 'subgraph', 'keys', 'values', 'items', 'split', 'format
                  'difference', 'edge_subgraph', 'reverse_view', 'to_directed'}
 
 
+# networkx facts: these calls return a *view*; a view has its own instance attributes but shares the attribute dictionary
+# `.graph` with the graph it was taken from, and the property `Graph.name` is stored in that dictionary
+VIEW_METHODS = {'subgraph', 'edge_subgraph', 'reverse_view', 'subgraph_view', 'restricted_view'}
+
+
 def per_instance_fields(p: Program, ci: ClassInfo) -> Dict[str, str]:
     """Fields of a (dataclass) whose value is created for each instance: name -> reason."""
     out: Dict[str, str] = {}
@@ -121,10 +126,15 @@ class Ownership:
         return out
 
     # ------------------------------------------------------------------ classification
-    def classify(self, g: Graph, ev: Ev, obj: ast.AST) -> List[Tuple[str, str]]:
-        """-> list of (class, human readable root); several when a local has several reaching defs."""
+    def classify(self, g: Graph, ev: Ev, obj: ast.AST, through_views: bool = False) -> List[Tuple[str, str]]:
+        """-> list of (class, human readable root); several when a local has several reaching defs.  With through_views a
+        graph view is classified like the graph it was taken from (for writes that land in the shared attribute dictionary)."""
         t = sym.term(self.p, obj, ev.inst)
-        return self._classify_term(g, ev, t, obj, ev.inst, 0)
+        self._views = through_views
+        try:
+            return self._classify_term(g, ev, t, obj, ev.inst, 0)
+        finally:
+            self._views = False
 
     def _classify_term(self, g, ev, t, obj, inst, depth) -> List[Tuple[str, str]]:
         if depth > 12:
@@ -168,6 +178,8 @@ class Ownership:
             if name.startswith('ext:'):
                 ext = name[4:]
                 last = ext.split('.')[-1]
+                if getattr(self, '_views', False) and last in VIEW_METHODS and t[2]:
+                    return self._classify_term(g, ev, t[2][0], obj, inst, depth + 1)
                 if ext in FRESH_CALLS or last in FRESH_METHODS:
                     return [('fresh', shown)]
                 # accessor of a container: the receiver decides (d.get(k), G.nodes[..].get(..))
